@@ -104,6 +104,9 @@ func tooCostly(fn string, vals []interface{}) bool {
 }
 
 func runCase(c Case) *hx.Failure {
+	if strings.HasPrefix(c.Fn, "plugin.") {
+		return runPlugin(c)
+	}
 	fn := funcByName[c.Fn]
 	if fn == nil || (c.Route != "run" && c.Route != "ecal") {
 		return hx.Failf("harness:bad-case", "unknown function %q or route %q", c.Fn, c.Route)
